@@ -244,11 +244,18 @@ func (m *mappers) ToCharGroup(r comb.Result) (comb.Result, bool) {
 
 	items := r2.Val.(comb.List)
 
+	// The characters outside of the ASCII range are kept separately.
+	var others []rune
+
 	charMap := make([]bool, len(parser.RuneClasses["ASCII"].Runes()))
 	for _, r := range items {
 		if chars, ok := r.Bag[bagKeyChars].([]rune); ok {
 			for _, c := range chars {
-				charMap[c] = true
+				if 0 <= c && int(c) < len(charMap) {
+					charMap[c] = true
+				} else {
+					others = append(others, c)
+				}
 			}
 		}
 	}
@@ -258,6 +265,15 @@ func (m *mappers) ToCharGroup(r comb.Result) (comb.Result, bool) {
 		if (!neg && marked) || (neg && !marked) {
 			alt.Exprs = append(alt.Exprs, &Char{
 				Val: rune(i),
+			})
+		}
+	}
+
+	// A negated group only ranges over the ASCII characters, so the other characters never match it.
+	if !neg {
+		for _, c := range others {
+			alt.Exprs = append(alt.Exprs, &Char{
+				Val: c,
 			})
 		}
 	}
